@@ -228,20 +228,47 @@ pub const ZSTD_COMPRESSION_LEVEL: i32 = 3;
 /// Represents the byte offset in a segment file up to which all data has been safely
 /// flushed to disk and can be read concurrently.
 #[derive(Clone, Debug)]
-pub struct FlushedOffset(Arc<AtomicU64>);
+pub struct FlushedOffset(Arc<FlushedOffsetInner>);
+
+#[derive(Debug)]
+struct FlushedOffsetInner {
+    offset: AtomicU64,
+    // Bumped whenever bytes below a previously flushed offset are rewritten (truncation,
+    // header replacement), so that readers drop what they buffered before
+    generation: AtomicU64,
+}
 
 impl FlushedOffset {
     pub(crate) fn new(offset: u64) -> Self {
-        FlushedOffset(Arc::new(AtomicU64::new(offset)))
+        FlushedOffset(Arc::new(FlushedOffsetInner {
+            offset: AtomicU64::new(offset),
+            generation: AtomicU64::new(0),
+        }))
     }
 
     pub(crate) fn set(&self, offset: u64) {
-        self.0.store(offset, Ordering::Release)
+        self.0.offset.store(offset, Ordering::Release)
+    }
+
+    /// Lowers the flushed offset because the segment is being truncated to `offset`.
+    pub(crate) fn truncate_to(&self, offset: u64) {
+        self.0.generation.fetch_add(1, Ordering::Release);
+        self.0.offset.store(offset, Ordering::Release)
+    }
+
+    /// Tells readers sharing this offset that already flushed bytes were rewritten in place.
+    pub(crate) fn bump_generation(&self) {
+        self.0.generation.fetch_add(1, Ordering::Release);
     }
 
     /// Returns the current flushed offset value.
     pub fn load(&self) -> u64 {
-        self.0.load(Ordering::Acquire)
+        self.0.offset.load(Ordering::Acquire)
+    }
+
+    /// Must be loaded after `load` to pair with the order used by `truncate_to`.
+    pub(crate) fn generation(&self) -> u64 {
+        self.0.generation.load(Ordering::Acquire)
     }
 }
 
